@@ -351,6 +351,9 @@ class Gen:
         if r < 0.5:
             return {"kind": "scalar", "w": rnd.choice([Fraction(1, 2), 1, 2, 0, Fraction(1, 4), 3])}
         ws = [1, 2, Fraction(1, 2), 0] if small else WEIGHTS
+        if not small and rnd.random() < 0.25:
+            # weights that are not exactly representable in binary: sums and marginal differences carry rounding residue
+            ws = [Fraction(1, 10), Fraction(3, 10), Fraction(1, 3), Fraction(7, 10), 1, 0]
         pm = rnd.choice([0.0, 0.0, 0.2, 0.5])
         return {"kind": "array", "w": [Fraction(rnd.choice(ws)) for _ in range(n)],
                 "valid": [rnd.random() >= pm for _ in range(n)], "form": rnd.choice(["nan", "tuple"])}
